@@ -36,6 +36,15 @@ class ScriptAbort(BaseException):
     """Same, but derived from BaseException only (Event.fail accepts any BaseException); ops with b = 1 use it."""
 
 
+class ScriptOdd(ScriptError):
+    """A failure whose constructor does not take its own .args (as most application exceptions with extra required
+    parameters): args = (kind, id), constructor (kind, id, extra); ops with b = 2 use it."""
+
+    def __init__(self, kind, uid, extra):
+        super().__init__(kind, uid)
+        self.extra = extra
+
+
 def V(k, a=0, s=()):
     return {"k": k, "a": int(a), "s": [int(x) for x in s]}
 
@@ -171,6 +180,9 @@ class Machine:
             return P != 0 and self.exists(o["a"]) and self.kinds[o["a"]] in USER and self.events[o["a"]] is not self.procs[P]
         if k in ("succeed", "fail"):
             return self.exists(o["a"]) and self.kinds[o["a"]] == "ev"
+        if k == "trigger":
+            return (self.exists(o["a"]) and self.kinds[o["a"]] == "ev" and self.exists(o["b"]) and self.kinds[o["b"]] in USER
+                    and o["a"] != o["b"] and self.events[o["b"]] is not None and self.events[o["b"]].triggered)
         if k == "interrupt":
             return 1 <= o["a"] < len(self.procs)
         if k == "cond":
@@ -227,7 +239,10 @@ class Machine:
             return ev if k == "sleep" else None
         if k == "baddelay":
             try:
-                env.timeout(-1)
+                if o.get("b") == 1:
+                    env.schedule(env.event(), delay=-1)      # the public plumbing method, same rule
+                else:
+                    env.timeout(-1)
             except ValueError:
                 self.L("E", P, False, V("ValueError"))
             return None
@@ -240,7 +255,15 @@ class Machine:
                 if k == "succeed":
                     ev.succeed(("v", o["a"]))
                 else:
-                    ev.fail((ScriptAbort if o.get("b") == 1 else ScriptError)("x", o["a"]))
+                    b = o.get("b")
+                    ev.fail(ScriptAbort("x", o["a"]) if b == 1 else ScriptOdd("x", o["a"], "payload") if b == 2
+                            else ScriptError("x", o["a"]))
+            except RuntimeError:
+                self.L("E", P, False, V("RuntimeError"))
+            return None
+        if k == "trigger":
+            try:
+                self.events[o["a"]].trigger(self.events[o["b"]])
             except RuntimeError:
                 self.L("E", P, False, V("RuntimeError"))
             return None
@@ -373,7 +396,8 @@ class Machine:
             if k == "return":
                 return ("ret", pid)
             if k == "raise":
-                raise (ScriptAbort if o.get("b") == 1 else ScriptError)("exc", pid)
+                b = o.get("b")
+                raise (ScriptAbort("exc", pid) if b == 1 else ScriptOdd("exc", pid, "payload") if b == 2 else ScriptError("exc", pid))
             ev = None
             if k == "yield":
                 if self.valid(o, pid):
@@ -602,7 +626,14 @@ class Chooser:
             if k in ("succeed", "fail"):
                 c_ = self.users(("ev",))
                 if c_:
-                    return {"k": k, "a": rng.choice(c_), "b": 1 if (k == "fail" and rng.random() < 0.3) else 0, "c": 0, "s": []}
+                    return {"k": k, "a": rng.choice(c_), "b": rng.choice([1, 2]) if (k == "fail" and rng.random() < 0.4) else 0, "c": 0, "s": []}
+            if k == "trigger":
+                c_ = self.users(("ev",))
+                src = [u for u in self.users() if m.events[u] is not None and m.events[u].triggered]
+                if c_ and src:
+                    a, b = rng.choice(c_), rng.choice(src)
+                    if a != b:
+                        return {"k": k, "a": a, "b": b, "c": 0, "s": []}
             if k == "spawn" and len(m.procs) - 1 < g["max_procs"] and len(m.events) + 1 < g["max_events"]:
                 return {"k": k, "a": 0, "b": 1 if rng.random() < g.get("spawn_noprobe", 0.3) else 0, "c": 0, "s": []}
             if k == "interrupt" and room and len(m.procs) > 1:
@@ -651,7 +682,7 @@ class Chooser:
                 if u:
                     return dict(Z, k="yield", a=rng.choice(u), c=1)
             if k == "raise" and not is_top:
-                return {"k": k, "a": 0, "b": 1 if rng.random() < 0.3 else 0, "c": 0, "s": []}
+                return {"k": k, "a": 0, "b": rng.choice([1, 2]) if rng.random() < 0.4 else 0, "c": 0, "s": []}
             if k == "return" and not is_top and not (g.get("resources") and self.holds_any(P)):
                 return {"k": k, "a": 0, "b": 0, "c": 0, "s": []}
             if is_top and k in ("run", "step"):
